@@ -58,7 +58,7 @@ CHECKS = {
          "DESIGN.md 3 C08"),
 
  "C13": ("bounded-exhaustive enumeration of (program x subset of meaning-preserving rewrites); relational oracle: diagnostic multiset by (code, statement index, operand role) invariant",
-         "Program pool (every 293rd / 13th member of the quick S family, clean and with one injected violation of each of 17 classes) x every compatible subset of <= 2 / <= 3 of 13 rewrite kinds (spacing, tabs, commas removed/doubled, comments, blank lines, mnemonic case, xN register names, hex/binary immediates, label placement, omitted zero offset, pseudo-instruction vs expansion), applied at all sites by a styled printer working on the harness AST; the multiset of (error code, statement index, semantic operand role) of the real pipeline's diagnostics must equal the plain rendering's.",
+         "Program pool (every 293rd / 41st member of the quick S family, clean and with one injected violation of each of 17 classes) x every compatible subset of <= 2 / <= 3 of 13 rewrite kinds (spacing, tabs, commas removed/doubled, comments, blank lines, mnemonic case, xN register names, hex/binary immediates, label placement, omitted zero offset, pseudo-instruction vs expansion), applied at all sites by a styled printer working on the harness AST; the multiset of (error code, statement index, semantic operand role) of the real pipeline's diagnostics must equal the plain rendering's.",
          "Trusted: styled printer and role mapping (implicit registers of pseudo-instructions are identified with the explicit operand of their expansion). Rewrites outside the list (macros, .eqv) are unsupported by the tool.",
          "DESIGN.md 3 C13"),
  "C14": ("bounded-exhaustive enumeration of register-class permutation orbits and label renamings per template; relational (equivariance) oracle",
